@@ -466,5 +466,103 @@ def check_C03(ctx):
                         samples=[dict(config=data[0]["h"]["config"], calls=len(data[0]["h"]["calls"]))] if data else [])
 
 
-REGISTRY = {"C03": check_C03, "C09": check_C09, "C08": check_C08, "C18": check_C18, "C17": check_C17, "C16": check_C16, "C14": check_C14, "C07": check_C07, "C06": check_C06, "C10": check_C10, "C15": check_C15, "C01": check_C01, "C02": check_C02, "C04": check_C04, "C05": check_C05,
+def check_C11(ctx):
+    import conc, collections, hist, streams
+    from vlib import load_findings
+    ctx.trusted += M2_TRUST + M1_TRUST + ["the step from per-method atomicity (M2 monitor Atomic) to the abstract machine of Proofs/Conc.v -- that a method's critical section, given exclusive access to the shared state, acts as M1's step -- rests on the sequential M1 correspondence; it is re-checked on the linearizations the concurrent harness finds",
+                                        "data-race freedom is tested with the Go race detector on the concurrent runs, not proved; the Go scheduler is perturbed by yields and sleeps at the drive, index-store and write-cache seams (a sample of schedules)",
+                                        "the linearizability search uses the implementation run sequentially as the executable specification (tied to M1 by the differential runs of C01/C02) and is bounded to 120 candidate orders per run"]
+    coq_props(ctx, "C11", ["C11_lock_order", "C11_lock_order_sem", "order_link", "C11_atomic", "C11_atomic_sem", "C11_prelock_reads_exact", "C11_single_section_exact",
+                           "C11_monitors_nonvacuous", "C11_no_deadlock_among_locks", "C11_m1_linearizable", "C11_m1_final_is_sequential", "C11_stream_refuted"])
+    known = {f["id"]: f for f in load_findings("C11")}
+    data = conc.conc_stream(ctx)
+    st = collections.Counter()
+    nthreads, ops = collections.Counter(), collections.Counter()
+    nfail, ncalls, tried = 0, 0, collections.Counter()
+    for d in data:
+        j = d["job"]
+        st["%s:%s" % (j["klass"], d["status"])] += 1
+        nthreads[len(j["threads"])] += 1
+        ncalls += d["ncalls"]
+        for t in j["threads"]:
+            for c in t:
+                ops[c["op"]] += 1
+        if d["status"] == "ok":
+            tried[d["detail"]["tried"]] += 1
+            continue
+        reader = any(c["op"] == "read" for t in j["threads"] for c in t)
+        if d["status"] == "hang" and reader and "C10-read-goroutine" in known:
+            # input-side signature: some thread reads through a handle while other threads are active
+            ctx.known("C10-read-goroutine", known["C10-read-goroutine"]["what"])
+            continue
+        nfail += 1
+        if nfail <= 5:
+            ctx.violation("concurrent-" + d["status"], "%d threads, %d calls: %s" % (len(j["threads"]), d["ncalls"], d["status"]),
+                          dict(job=j, status=d["status"], detail=d["detail"], records=d.get("recs"),
+                               how="stfsdrv conc < job.json runs job.threads as goroutines on one instance after job.setup (scheduler perturbed from job.seed at the seams); every call is stamped at invocation and return; lib/conc.py check_linearizable replays candidate sequential orders with stfsdrv run"))
+    # witness of the known finding, replayed on every run: a read handle is left mid-stream, two writers start
+    wj = dict(config={"rs": 20, "cache": "file"}, blobs=[{"seed": 1, "len": 1500}], seed=1, tmo=3000, obs=["tree"], klass="reads",
+              setup=[{"op": "initialize"}, {"op": "createfile", "name": "/f", "blob": 0}, {"op": "open", "h": "w", "name": "/f", "flags": 0, "perm": 0}, {"op": "read", "h": "w", "n": 2}],
+              threads=[[{"op": "mkdir", "name": "/q0", "perm": 493}], [{"op": "mkdir", "name": "/q1", "perm": 493}, {"op": "close", "h": "w"}]])
+    wst, wdetail = conc.check_linearizable(wj, conc.run_conc(wj))
+    if wst == "hang":
+        if "C10-read-goroutine" in known:
+            ctx.known("C10-read-goroutine", known["C10-read-goroutine"]["what"])
+        else:
+            nfail += 1
+            ctx.violation("concurrent-hang", "writers started while a read handle is mid-stream never return", dict(job=wj, detail=wdetail))
+    elif "C10-read-goroutine" in known:
+        ctx.note("finding-not-reproduced: C10-read-goroutine witness (two writers while a read handle is mid-stream) returned: %s" % wst)
+    ctx.oblige("concurrent runs: every call returns (no hang, no panic), outcomes and final tree equal those of a sequential order that respects real-time order, and the final tree is reproduced by a rebuild from the tape (%d programs, %d calls)" % (len(data), ncalls), nfail == 0, "%d failures" % nfail)
+    # M1 on the linearizations found (filesystem-level programs)
+    tie, p = streams.cache_get(ctx, "conctie")
+    if tie is None:
+        hs = []
+        for d in data:
+            if d["status"] == "ok" and d["job"]["klass"] == "fs":
+                h = dict(d["detail"]["seq"])
+                h["obs"] = streams.FS_OBS
+                # Stat changes nothing and is not a call of M1 (its answers are the visible tree M1 is compared on)
+                h["calls"] = [dict(c) for c in h["calls"][:-1] if c["op"] != "stat"]
+                for c in h["calls"]:
+                    c.pop("obs", None)
+                hs.append(h)
+        res = hist.run_many(hs)
+        terms = []
+        for h, (r, rc, err) in zip(hs, res):
+            t = hist.emit_case(h, r, hist.identity_of(r)) if rc == 0 else None
+            if t:
+                terms.append(t)
+        ok, mm, lg = hist.coq_mismatches(terms, "conc%d" % ctx.seed) if terms else (True, [], "")
+        tie = dict(ok=ok, mm=mm, log=lg[-1500:], cases=len(terms), wanted=len(hs))
+        streams.cache_put(p, tie)
+    ctx.oblige("correspondence: M1 evaluated in Coq on the linearizations found agrees with the sequential implementation run (%d of %d linearizations comparable)" % (tie["cases"], tie["wanted"]),
+               tie["ok"] and not tie["mm"] and tie["cases"] >= tie["wanted"] * 0.8, json.dumps(tie["mm"][:3]) + tie["log"][-600:])
+    # race detector
+    race, p2 = streams.cache_get(ctx, "concrace")
+    if race is None:
+        from vlib import sh
+        import os
+        rc, out = sh("go build -race -tags verif -o %s-race ./cmd/stfsdrv" % hist.STFSDRV, cwd=os.path.join(V, "harness"), timeout=1500)
+        race = dict(built=rc == 0, log=out[-800:], runs=0, races=0, text="")
+        if rc == 0:
+            jobs = [d["job"] for d in data if d["job"]["klass"] != "reads"]
+            jobs = jobs[:10] if ctx.tier == "quick" else jobs
+            from concurrent.futures import ThreadPoolExecutor
+            with ThreadPoolExecutor(max_workers=6) as ex:
+                rr = list(ex.map(lambda j: conc.run_conc(j, race=True, timeout=300), jobs))
+            race.update(runs=len(rr), races=sum(r["races"] for r in rr), text=next((r["race_text"] for r in rr if r["races"]), ""),
+                        job=next((j for j, r in zip(jobs, rr) if r["races"]), None))
+        streams.cache_put(p2, race)
+    ctx.oblige("race detector: the harness builds with -race and reports no data race on the concurrent programs (%d runs)" % race["runs"], race["built"] and race["races"] == 0, race["log"] + race["text"][:1500])
+    if race.get("races"):
+        ctx.violation("data-race", "the Go race detector reports %d data race(s)" % race["races"], dict(job=race.get("job"), report=race["text"][:4000], how="stfsdrv-race conc < job.json (go build -race)"))
+    ctx.coverage.update(evaluations=ncalls, configs=len(data), distinct_nontrivial=sum(1 for d in data if d["status"] == "ok" and d["ncalls"] >= 4), status_histogram=dict(st),
+                        threads_histogram={str(k): v for k, v in sorted(nthreads.items())}, op_histogram=dict(ops), orders_tried_until_match={str(k): v for k, v in sorted(tried.items())},
+                        race_runs=race["runs"], m1_linearizations=tie["cases"],
+                        rule="client programs of 2..8 goroutines over shared (/s, /s/x, /t, /u) and private paths: whole-filesystem calls; handle calls (open/write/close); handle reads (known finding); every random choice from seed %d" % ctx.seed,
+                        samples=[dict(threads=data[0]["job"]["threads"], status=data[0]["status"])] if data else [])
+
+
+REGISTRY = {"C11": check_C11, "C03": check_C03, "C09": check_C09, "C08": check_C08, "C18": check_C18, "C17": check_C17, "C16": check_C16, "C14": check_C14, "C07": check_C07, "C06": check_C06, "C10": check_C10, "C15": check_C15, "C01": check_C01, "C02": check_C02, "C04": check_C04, "C05": check_C05,
             "C12": check_C12, "C13": check_C13}
